@@ -111,7 +111,7 @@ def evaluate(sid, checks, tier="quick", seed=None):
     sh(["git", "-C", VERIF, "checkout", "--", "evidence"])
     meta.setdefault("detected_by", {})
     for c, r in res.items():
-        meta["detected_by"]["%s:%s" % (c, tier)] = {"detected": r["rc"] == 1, "rc": r["rc"], "signatures": r["signatures"][:3], "seconds": r["seconds"]}
+        meta["detected_by"]["%s:%s%s" % (c, tier, "" if seed is None else ":seed%d" % seed)] = {"detected": r["rc"] == 1, "rc": r["rc"], "signatures": r["signatures"][:3], "seconds": r["seconds"]}
     json.dump(meta, open(os.path.join(dst, "meta.json"), "w"), indent=1)
     return res
 
@@ -123,11 +123,16 @@ if __name__ == "__main__":
         i = a.index("--tier")
         tier = a[i + 1]
         del a[i:i + 2]
+    seed = None
+    if "--seed" in a:
+        i = a.index("--seed")
+        seed = int(a[i + 1])
+        del a[i:i + 2]
     if a[0] == "confirm":
         sys.exit(0 if confirm(a[1], a[2], a[3]) else 1)
     elif a[0] == "eval":
-        evaluate(a[1], a[2:], tier)
+        evaluate(a[1], a[2:], tier, seed)
     elif a[0] == "evalall":
         for sid in sorted(os.listdir(SEEDED)):
             if os.path.exists(os.path.join(SEEDED, sid, "meta.json")):
-                evaluate(sid, [], tier)
+                evaluate(sid, [], tier, seed)
